@@ -1,5 +1,5 @@
 import TmVerif.Model.LRXProto
-import TmVerif.Model.Events
+import TmVerif.Model.EventsWF
 namespace TmVerif.DriverC02
 open TmVerif.Proto TmVerif.LR TmVerif.LRX TmVerif.Events
 
@@ -26,6 +26,10 @@ def handle (args : List String) : Option String :=
       let shown := showXRun res c
       match res with
       | .accept =>
+        -- the decidable hypotheses of theorem `C02_events_eq_eventsOf` must hold on every real case
+        if !(reportsWF x && symsWF x inp && acceptShape x c && !x.recovering) then
+          some s!"HYPOTHESIS-FAILS reportsWF={reportsWF x} symsWF={symsWF x inp} acceptShape={acceptShape x c} recovering={x.recovering} model={shown}"
+        else
         match eventsOf x inp input fuel with
         | some spec =>
           if spec == c.evs.reverse then some shown
